@@ -254,42 +254,54 @@ func analyse(g graph, desc bool) analysis {
 
 // ---- sources ---------------------------------------------------------------
 
-func importStmts(ts []int, indent string) (stmts string, list string) {
+// namer maps module index i to the name it is registered and imported under
+// (nil: m0, m1, ...). Names are distinct strings, hence distinct modules; the
+// graph structure (Case.Edges) always speaks about indices.
+type namer []string
+
+func (nm namer) name(i int) string {
+	if i < len(nm) {
+		return nm[i]
+	}
+	return "m" + strconv.Itoa(i)
+}
+
+func importStmts(ts []int, indent string, nm namer) (stmts string, list string) {
 	var sb strings.Builder
 	var xs []string
 	for _, t := range ts {
-		fmt.Fprintf(&sb, "%sx%d := import(\"m%d\")\n", indent, t, t)
+		fmt.Fprintf(&sb, "%sx%d := import(%s)\n", indent, t, strconv.Quote(nm.name(t)))
 		xs = append(xs, "x"+strconv.Itoa(t))
 	}
 	return sb.String(), "[" + strings.Join(xs, ", ") + "]"
 }
 
-func moduleSource(i int, ts []int, variant string) string {
-	name := "m" + strconv.Itoa(i)
-	mark := "mark := \"MARK:" + name + "\"\n"
-	top, list := importStmts(ts, "")
-	in, _ := importStmts(ts, "\t")
+func moduleSource(i int, ts []int, variant string, nm namer) string {
+	name := nm.name(i)
+	mark := "mark := \"MARK:m" + strconv.Itoa(i) + "\"\n"
+	top, list := importStmts(ts, "", nm)
+	in, _ := importStmts(ts, "\t", nm)
 	fn := "f := func() {\n" + in + "\treturn " + list + "\n}\n"
 	switch variant {
 	case "map":
-		return mark + top + "export {name: \"" + name + "\", deps: " + list + "}\n"
+		return mark + top + "export {name: " + strconv.Quote(name) + ", deps: " + list + "}\n"
 	case "noexport":
 		return mark + top + "unused := " + list + "\n"
 	case "lit":
-		return mark + top + "export \"" + name + "\"\n"
+		return mark + top + "export " + strconv.Quote(name) + "\n"
 	case "counter":
-		return mark + "c := 0\n" + top + "export {name: \"" + name + "\", deps: " + list + ", inc: func() { c += 1; return c }}\n"
+		return mark + "c := 0\n" + top + "export {name: " + strconv.Quote(name) + ", deps: " + list + ", inc: func() { c += 1; return c }}\n"
 	case "fcall":
-		return mark + fn + "export {name: \"" + name + "\", deps: f()}\n"
+		return mark + fn + "export {name: " + strconv.Quote(name) + ", deps: f()}\n"
 	case "fnocall":
-		return mark + fn + "export {name: \"" + name + "\", deps: \"uncalled\"}\n"
+		return mark + fn + "export {name: " + strconv.Quote(name) + ", deps: \"uncalled\"}\n"
 	}
 	return "<bad variant>"
 }
 
-func mainSource(ts []int, variant string) string {
-	top, list := importStmts(ts, "")
-	in, _ := importStmts(ts, "\t")
+func mainSource(ts []int, variant string, nm namer) string {
+	top, list := importStmts(ts, "", nm)
+	in, _ := importStmts(ts, "\t", nm)
 	fn := "f := func() {\n" + in + "\treturn " + list + "\n}\n"
 	switch variant {
 	case "top":
@@ -304,43 +316,43 @@ func mainSource(ts []int, variant string) string {
 
 // ---- reference values (val.Snapshot syntax) ----------------------------------
 
-func refModuleValue(g graph, desc bool, vars []string, i int) string {
+func refModuleValue(g graph, desc bool, vars []string, i int, nm namer) string {
 	ts := g.targets(i+1, desc)
-	name := "m" + strconv.Itoa(i)
+	name := strconv.Quote(nm.name(i))
 	deps := func() string {
 		var xs []string
 		for _, t := range ts {
-			xs = append(xs, refModuleValue(g, desc, vars, t))
+			xs = append(xs, refModuleValue(g, desc, vars, t, nm))
 		}
 		return "array[" + strings.Join(xs, ",") + "]"
 	}
 	switch vars[i] {
 	case "map", "fcall":
-		return "immap{\"deps\":" + deps() + ",\"name\":string:\"" + name + "\"}"
+		return "immap{\"deps\":" + deps() + ",\"name\":string:" + name + "}"
 	case "noexport":
 		return "undefined"
 	case "lit":
-		return "string:\"" + name + "\""
+		return "string:" + name
 	case "counter":
-		return "immap{\"deps\":" + deps() + ",\"inc\":func/compiled,\"name\":string:\"" + name + "\"}"
+		return "immap{\"deps\":" + deps() + ",\"inc\":func/compiled,\"name\":string:" + name + "}"
 	case "fnocall":
-		return "immap{\"deps\":string:\"uncalled\",\"name\":string:\"" + name + "\"}"
+		return "immap{\"deps\":string:\"uncalled\",\"name\":string:" + name + "}"
 	}
 	return "<bad variant>"
 }
 
-func refGlobals(g graph, desc bool, mainVar string, vars []string) map[string]string {
+func refGlobals(g graph, desc bool, mainVar string, vars []string, nm namer) map[string]string {
 	ts := g.targets(0, desc)
 	out := map[string]string{}
 	switch mainVar {
 	case "top":
 		for _, t := range ts {
-			out["x"+strconv.Itoa(t)] = refModuleValue(g, desc, vars, t)
+			out["x"+strconv.Itoa(t)] = refModuleValue(g, desc, vars, t, nm)
 		}
 	case "fcall":
 		var xs []string
 		for _, t := range ts {
-			xs = append(xs, refModuleValue(g, desc, vars, t))
+			xs = append(xs, refModuleValue(g, desc, vars, t, nm))
 		}
 		out["f"] = "func/compiled"
 		out["res"] = "array[" + strings.Join(xs, ",") + "]"
@@ -518,19 +530,30 @@ func runGraph(c Case) (fails []fail, obs string, st graphStats) {
 	if err != nil || len(c.ModVars) != c.N {
 		return []fail{{"internal/bad-case", fmt.Sprint("bad graph case: ", err)}}, "", st
 	}
+	nm := namer(c.Names)
+	if len(nm) != 0 && len(nm) != c.N {
+		return []fail{{"internal/bad-case", "names do not match n"}}, "", st
+	}
+	for i := 0; i < c.N; i++ {
+		for j := 0; j < i; j++ {
+			if nm.name(i) == nm.name(j) {
+				return []fail{{"internal/bad-case", "module names are not distinct"}}, "", st
+			}
+		}
+	}
 	a := analyse(g, c.Desc)
 	st = graphStats{reachEdges: a.reachEdges, cyclic: a.cyclic, diamond: a.diamond, shape: a.shape, simHits: a.simHits}
 	mods := tengo.NewModuleMap()
 	srcs := map[string]string{}
 	for i := 0; i < g.n; i++ {
-		src := moduleSource(i, g.targets(i+1, c.Desc), c.ModVars[i])
-		srcs["m"+strconv.Itoa(i)] = src
-		mods.AddSourceModule("m"+strconv.Itoa(i), []byte(src))
+		src := moduleSource(i, g.targets(i+1, c.Desc), c.ModVars[i], nm)
+		srcs[nm.name(i)] = src
+		mods.AddSourceModule(nm.name(i), []byte(src))
 	}
-	mainSrc := mainSource(g.targets(0, c.Desc), c.MainVar)
+	mainSrc := mainSource(g.targets(0, c.Desc), c.MainVar, nm)
 	add := func(what, detail string) {
 		fails = append(fails, fail{"graph/" + what + "/shape=" + a.shape,
-			fmt.Sprintf("%s [edges=%v desc=%v main=%s mods=%v]", detail, c.Edges, c.Desc, c.MainVar, c.ModVars)})
+			fmt.Sprintf("%s [edges=%v names=%q desc=%v main=%s mods=%v]", detail, c.Edges, shownNames(c), c.Desc, c.MainVar, c.ModVars)})
 	}
 	o := execScript(execIn{main: mainSrc, mods: mods})
 	obs = o.class
@@ -561,19 +584,25 @@ func runGraph(c Case) (fails []fail, obs string, st graphStats) {
 			add("wrong-cycle-named", "compile error does not mention a cyclic import: "+first)
 			return
 		}
-		named := strings.TrimSpace(first[k+len(pfx):])
+		named := first[k+len(pfx):] // verbatim: a module name may end in a space
+		namedIdx := "<no module of that name>"
+		for i := 0; i < c.N; i++ {
+			if nm.name(i) == named {
+				namedIdx = "m" + strconv.Itoa(i)
+			}
+		}
 		on := false
 		for _, n := range a.cycleNames {
-			if n == named {
+			if n == namedIdx {
 				on = true
 			}
 		}
 		if !on {
-			add("wrong-cycle-named", fmt.Sprintf("error names %q, reachable modules on a cycle are %v", named, a.cycleNames))
+			add("wrong-cycle-named", fmt.Sprintf("error names %q (= %s), reachable modules on a cycle are %v", named, namedIdx, a.cycleNames))
 			return
 		}
 		st.exactName = -1
-		if named == a.simFail {
+		if namedIdx == a.simFail {
 			st.exactName = 1
 		}
 		obs += ":" + a.shape
@@ -585,7 +614,7 @@ func runGraph(c Case) (fails []fail, obs string, st graphStats) {
 		add("rejects-acyclic", fmt.Sprintf("no cycle is reachable from main but compile+run gave %s: %s", o.class, tg.FirstLine(o.text)))
 		return
 	}
-	want := refGlobals(g, c.Desc, c.MainVar, c.ModVars)
+	want := refGlobals(g, c.Desc, c.MainVar, c.ModVars, nm)
 	var names []string
 	for k := range o.globals {
 		names = append(names, k)
@@ -638,4 +667,12 @@ func runGraph(c Case) (fails []fail, obs string, st graphStats) {
 	}
 	obs += fmt.Sprintf(":%s:mods=%d", a.shape, total)
 	return
+}
+
+func shownNames(c Case) []string {
+	out := make([]string, c.N)
+	for i := range out {
+		out[i] = namer(c.Names).name(i)
+	}
+	return out
 }
